@@ -54,6 +54,10 @@ type Case struct {
 	// BigArr: the chain ends with an Array holding one string of this many bytes followed by a small
 	// Array: both come from the same pool, which must keep serving both sizes without reallocating
 	BigArr int `json:"big_array,omitempty"`
+	// BigRaw: a RawJSON field of this many bytes (a JSON string literal)
+	BigRaw int `json:"big_raw,omitempty"`
+	// FreshPool: zerolog's pools are emptied first, so that the buffers this event grows are its own
+	FreshPool bool `json:"fresh_pool,omitempty"`
 }
 
 var bigPayload = strings.Repeat("0123456789abcdef", 4096) // 64 KiB of plain text
@@ -438,6 +442,14 @@ func run(c *Case) (string, bool) {
 		zerolog.ErrorHandler = func(error) {}
 		defer func() { zerolog.ErrorHandler = old }()
 	}
+	if c.FreshPool {
+		runtime.GC() // two cycles empty sync.Pool (victim cache included): the event starts from a fresh 500-byte buffer
+		runtime.GC()
+	}
+	var raw []byte
+	if c.BigRaw > 0 {
+		raw = []byte("\"" + strings.Repeat("r", c.BigRaw-2) + "\"") // a valid document of exactly that size
+	}
 	f := func() {
 		if c.FailFirst {
 			// history: an event whose write fails, immediately before the measured event
@@ -451,6 +463,9 @@ func run(c *Case) (string, bool) {
 			e = e.Str("big", bigEscPayload[:c.Big])
 		} else if c.Big > 0 {
 			e = e.Str("big", bigPayload[:c.Big])
+		}
+		if c.BigRaw > 0 {
+			e = e.RawJSON("bigraw", raw)
 		}
 		if c.BigArr > 0 {
 			e = e.Array("bigarr", zerolog.Arr().Str(bigPayload[:c.BigArr])).Array("smallarr", zerolog.Arr().Int(1).Bool(true))
@@ -589,14 +604,31 @@ func TestEachFamily(t *testing.T) {
 			}
 		}
 	}
+	// large embedded JSON documents: whoever grows the buffer for them must leave it poolable
+	for _, lg := range []string{"bare", "ctx"} {
+		for _, big := range []int{600, 5000, 20000, 33000, 40000, 50000, 60000} {
+			c := &Case{Logger: lg, Fin: "msg", Build: buildName(), Steps: []Step{{M: "int", V: 3}}, BigRaw: big, FreshPool: true}
+			n++
+			if msg, _ := run(c); msg != "" {
+				fail(t, "family", c, fmt.Sprintf("with a %d-byte RawJSON field: %s", big, msg))
+			}
+			c = &Case{Logger: lg, Fin: "msg", Build: buildName(), Steps: []Step{{M: "int", V: 3}}, Big: 20000, BigRaw: big / 2, FreshPool: true}
+			n++
+			if msg, _ := run(c); msg != "" {
+				fail(t, "family", c, fmt.Sprintf("with a 20000-byte string and a %d-byte RawJSON field: %s", big/2, msg))
+			}
+		}
+	}
 	// events whose buffer has grown to each capacity class up to the pooling limit (64 KiB): still pooled, still free
 	for _, lg := range []string{"bare", "ctx", "ts", "filtered"} {
 		for _, big := range []int{500, 1100, 9000, 11000, 20000, 33000, 41000, 49500, 57400, 60000, 63000} {
 			for _, esc := range []bool{false, true} {
-				c := &Case{Logger: lg, Fin: "msg", Build: buildName(), Steps: []Step{{M: "int", V: 3}}, Big: big, BigEsc: esc}
-				n++
-				if msg, _ := run(c); msg != "" {
-					fail(t, "family", c, fmt.Sprintf("with a %d-byte field (escaped=%v): %s", big, esc, msg))
+				for _, fresh := range []bool{false, true} {
+					c := &Case{Logger: lg, Fin: "msg", Build: buildName(), Steps: []Step{{M: "int", V: 3}}, Big: big, BigEsc: esc, FreshPool: fresh}
+					n++
+					if msg, _ := run(c); msg != "" {
+						fail(t, "family", c, fmt.Sprintf("with a %d-byte field (escaped=%v, pools emptied first=%v): %s", big, esc, fresh, msg))
+					}
 				}
 			}
 		}
